@@ -82,6 +82,7 @@ def run(prop, tier, replay=None):
         sets = fe.tlc_scenarios(work, ntlc, seed, "sets") + fe.gen_scenarios(seed, ngen, "sets") + [fe.hammer_scenario(rnd, *ham, mode=m) for m in ("lookup", "current")] + [fe.append_hammer_scenario(rnd, aham[1], aham[2]) for _ in range(aham[0])]
         sets += fe.held_scenarios(seed, nheld, "sets") + fe.updater_scenarios(seed, nupd)
         push = fe.tlc_scenarios(work, ntlc, seed, "push") + fe.gen_scenarios(seed, ngen, "push") + fe.held_scenarios(seed, nheld, "push")
+        push += fe.tlc_scenarios(work, max(8, ntlc // 2), seed, "push-unknown") + fe.gen_scenarios(seed, max(20, ngen // 3), "push-unknown")
     for i, s in enumerate(sets + push):
         s["tid"] = i + 1
     by_tid = {s["tid"]: s for s in sets + push}
